@@ -709,6 +709,30 @@ def l_strlen( ctx ):
                      'the element does not occupy length%s octets: every element behind it in the same request is parsed from a shifted position' % ( ' + pad' if padded else '' ))
         else:
             res.ok( src, cnt[0], '%s.produce: exactly length%s octets behind the count for all %d ( length, text ) cells' % ( cname, ' + pad' if padded else '', len( cells )))
+        # every length the count field can carry is produced, none beyond it: the guard(s) on the length ahead of the count are evaluated at
+        # the largest count ( 255 / 65535 ) and one above.  ( A text of exactly 255 octets is parsed and stored by a Write Tag; if the
+        # producer then refuses it, the tag that was written with success can never be read again. )
+        top = 0xFF if cname == 'SSTRING' else 0xFFFF
+        guards = [ a for a in fn.body[:fn.body.index( cnt[0] )] if isinstance( a, ast.Assert ) and LEN in txt( a.test ) ]
+        cd = src.get( cname )
+        consts = { 'cls.' + t_.id: try_fold( a_.value ) for a_ in cd.body if isinstance( a_, ast.Assign ) for t_ in a_.targets if isinstance( t_, ast.Name ) and try_fold( a_.value ) is not None }
+        def admits( L_ ):
+            class Sub( ast.NodeTransformer ):
+                def visit_Attribute( self, n ):
+                    return ast.Constant( value=L_ ) if txt( n ) == LEN else self.generic_visit( n ) or n
+            for g in guards:
+                v = try_fold( Sub().visit( ast.parse( ast.unparse( g.test ), mode='eval' ).body ), dict( consts ), default=NoFold )
+                if v is NoFold:
+                    raise AnalysisError( '%s.produce: length guard not foldable: %s' % ( cname, norm_text( g.test )))
+                if not v:
+                    return False
+            return True
+        if guards:
+            if admits( top ) and admits( 0 ) and not admits( top + 1 ):
+                res.ok( src, guards[0], '%s.produce admits every length the count can carry ( 0 .. %d ) and none beyond' % ( cname, top ))
+            else:
+                res.bad( src, guards[0], '%s.produce: length %d %s, length %d %s' % ( cname, top, 'admitted' if admits( top ) else 'REFUSED', top + 1, 'admitted' if admits( top + 1 ) else 'refused' ),
+                         'the count field carries 0 .. %d: a text of exactly %d octets is parsed ( and stored by a Write Tag, status 0x00 ) but can then never be produced - every later read of that tag fails, for every session' % ( top, top ), func=cname + '.produce' )
     return res
 
 
